@@ -77,7 +77,7 @@ def image_at(trace, k, base=None, torn=None):
     return img
 
 
-def restart_on(img, tables, mem_kb=400, probe=True, want_trace=False, timeout=30):
+def restart_on(img, tables, mem_kb=400, probe=True, want_trace=False, timeout=30, durability=False):
     """start the engine on the image in a fresh process and directory; returns dict:
     status: ok | open-failed | dead ; rows: {table: canonical scan} ; probe: answer ; trace: path"""
     d = tempfile.mkdtemp(prefix="img_", dir=os.path.join(BUILD, "tmp"))
@@ -98,6 +98,17 @@ def restart_on(img, tables, mem_kb=400, probe=True, want_trace=False, timeout=30
             out["rows"][t] = scan_rows(db.cmd("scan " + t))
         if probe:
             out["probe"] = probe_db(db, tables)
+        if durability and not db.dead:
+            # work committed after this restart must survive the next crash as well (LSNs must continue above the page LSNs)
+            # (on pages that exist already: their page LSNs are those of the previous incarnation)
+            t0 = tables[0]
+            r1 = db.sql("INSERT INTO %s(k,g,v) VALUES (987654, 1, 'dur');" % t0)
+            r2 = db.sql("UPDATE %s SET g = 2 WHERE k = 987654;" % t0)
+            db.restart_process()
+            r4 = db.cmd("open %s/db %d" % (d, mem_kb), timeout=timeout)
+            r5 = db.sql("SELECT g FROM %s WHERE k = 987654;" % t0) if r4.startswith("ok") else "-"
+            out["durability"] = "ok" if (r1.startswith("ok") and r2.startswith("ok") and r4.startswith("ok") and r5 == "ok:i:2") else \
+                "work committed after the restart is lost by the next crash: INSERT INTO %s (k=987654) %s, UPDATE g=2 %s | crash | reopen %s, SELECT g WHERE k = 987654 -> %s (expected i:2)" % (t0, r1[:20], r2[:20], r4[:40], r5[:60])
         if db.dead:
             out["status"] = "dead"
             out["detail"] = db.dead
